@@ -2,7 +2,7 @@
 
 Channels (see CONVENTIONS.md for the plugin interface):
   w   lib/dispatchcloud/worker     real worker/Pool/remoteRunner functions in a (state, timer) configuration
-                                   against the response model                    (ops tk sb pr sy kl uk sc)
+                                   against the response model                    (ops tk sb pr sy kl uk sc o1)
   s   lib/dispatchcloud/scheduler  real sync() / fixStaleLocks() against stubs    (ops sw fl)
   e2e lib/dispatchcloud            real dispatcher against the stub cloud with a randomized fault schedule,
                                    a restart, and a wall-clock deadline           (op  e2e)
@@ -160,6 +160,32 @@ def _gen_sc(rng, n):
     return out
 
 
+def _gen_o1(rng, n):
+    """start / probe / start-completion interleavings on one worker (runner objects; finding F15a)"""
+    out = []
+    for _ in range(n):
+        pending, ops = set(), []
+        alive = set()
+        for _ in range(rng.randint(2, 9)):
+            r = rng.random()
+            u = rng.choice([7, 8])
+            if r < 0.3 and u not in pending:
+                ops.append("st%d" % u)
+                pending.add(u)      # (if the worker is busy the start is refused; `sd` is then a no-op)
+                alive.add(u)
+            elif r < 0.75:
+                if rng.random() < 0.5 and alive:
+                    alive.discard(rng.choice(sorted(alive)))
+                ops.append("pa" + _us(sorted(alive)))
+            elif pending:
+                v = rng.choice(sorted(pending))
+                pending.discard(v)
+                ops.append("sd%d" % v)
+        if ops:
+            out.append("o1 " + ",".join(ops))
+    return out
+
+
 STATES = "QLRCXO"
 
 
@@ -268,12 +294,13 @@ def generate(rng, tier):
     cases += _gen_e2e(rng, tier)
     cases += _gen_tk(rng, tier)
     cases += _gen_sb()
-    cases += _gen_pr(rng, 30000 if big else 1500)
+    cases += _gen_pr(rng, 20000 if big else 1500)
     cases += _gen_sy(rng, 10000 if big else 500)
     cases += _gen_kl(rng, tier)
     cases += _gen_uk()
     cases += _gen_sc(rng, 5000 if big else 400)
-    cases += _gen_sw(rng, 20000 if big else 800)
+    cases += _gen_o1(rng, 4000 if big else 300)
+    cases += _gen_sw(rng, 10000 if big else 800)
     cases += _gen_fl(rng, 3000 if big else 240)
     # malformed stream
     cases += ["zz 1 2", "tk I r - - -", "tk Z r - - - 0", "sb I q 5", "pr I r - - - 0 1 1 - 0 z", "kl r - 2 - 2 q",
@@ -532,10 +559,20 @@ def _oracle_fl(f, impl):
     return None
 
 
+def _oracle_o1(f, impl):
+    if impl.startswith("panic"):
+        return "the dispatcher process panics while probing a worker: " + impl[:120]
+    if not re.fullmatch(r"[IR] sg=\S+ rg=\S+ ex=\S+", impl):
+        return "driver could not observe the case: " + impl[:200]
+    return None
+
+
 def _oracle_e2e(f, impl):
     if not impl.startswith("e2e "):
         return "deadline run could not be observed: " + impl[:300]
     d = _kv(impl)
+    if "crash" in d:
+        return "the dispatcher process panicked during the run: " + d["crash"]
     why = []
     fin = d.get("final", "?")
     if d.get("nonfinal", "?") != "-":
@@ -552,16 +589,46 @@ def _oracle_e2e(f, impl):
 def oracle(case, impl):
     """Property text on implementation output only."""
     f = case.split(" ")
+    if f[0] == "o1" and impl.startswith("panic"):
+        return _oracle_o1(f, impl)
     if impl.startswith(("panic", "CRASH")):
         return "driver could not observe the case: " + impl[:200]
     if impl == "bad-op":
         return None
     try:
-        fn = {"tk": _oracle_tk, "sb": _oracle_sb, "pr": _oracle_pr, "sy": _oracle_sy, "kl": _oracle_kl,
+        fn = {"o1": _oracle_o1, "tk": _oracle_tk, "sb": _oracle_sb, "pr": _oracle_pr, "sy": _oracle_sy, "kl": _oracle_kl,
               "uk": _oracle_uk, "sc": _oracle_sc, "sw": _oracle_sw, "fl": _oracle_fl, "e2e": _oracle_e2e}.get(f[0])
         return fn(f, impl) if fn else None
     except (ValueError, IndexError, KeyError) as e:
         return f"oracle could not parse case/output ({e}): {impl[:120]}"
+
+
+def finding_of(case, impl, why):
+    """F15a: the completion closure of worker.startContainer re-inserts a runner that a probe has already
+    closed; the next probe closes its channel again and the process panics. Only this exact shape."""
+    op = case.split(" ", 1)[0]
+    if op == "o1" and impl == "panic close of closed channel":
+        # the interleaving must contain: start of u, u adopted by a probe, u reported gone by a later probe, then
+        # the completion of that start, then another probe
+        ops = case.split(" ", 1)[1].split(",")
+        for u in ("7", "8"):
+            stage = 0
+            for o in ops:
+                listed = o.startswith("pa") and u in o[2:].split("/")
+                if stage == 0 and o == "st" + u:
+                    stage = 1
+                elif stage == 1 and listed:
+                    stage = 2
+                elif stage == 2 and o.startswith("pa") and not listed:
+                    stage = 3
+                elif stage == 3 and o == "sd" + u:
+                    stage = 4
+                elif stage == 4 and o.startswith("pa"):
+                    return "F15a"
+        return None
+    if op == "e2e" and impl == "e2e crash=closeRunner-double-close":
+        return "F15a"
+    return None
 
 
 def nontrivial_key(case, impl):
@@ -574,6 +641,8 @@ def nontrivial_key(case, impl):
         return case if re.search(r":[1-9]\d*(,|$)", impl) or impl.count(":") // 2 != (0 if f[1] == "-" else f[1].count(",") + 1) else None
     if f[0] == "sc":
         return case if impl != "w0" else None
+    if f[0] == "o1":
+        return case if "st" in case and "pa" in case else None
     if f[0] == "sw":
         return case if not impl.startswith("-;-;wake=0") else None
     if f[0] == "fl":
